@@ -7,5 +7,5 @@ Definition gen_mca_facts : mca_facts := mkFacts
   [(1 # 10000)%Q; (1 # 10000)%Q; (1 # 10000)%Q; (1 # 10000)%Q]
   [SObserve; SObserve; SObserveIfNorm]
   [SReadOld; (SSetPar Up); SObserve; (SSetPar Down); SObserve; (SSetPar Back); SObserveIfNorm]
-  [SReadOld; SSaveY0; SApplyY0; (SSetPar Up); SObserve; (SSetPar Down); SObserve; (SView 0); (SView 1); (SView 0); (SView 1); (SSetPar Back); SRestoreY0; SObserveIfNorm; (SViewIfNorm 2); (SViewIfNorm 2)]
+  [SReadOld; SApplyY0; (SSetPar Up); SObserve; (SSetPar Down); SObserve; (SView 0); (SView 1); (SView 0); (SView 1); (SSetPar Back); SObserveIfNorm; (SViewIfNorm 2); (SViewIfNorm 2)]
   QuotCentralRel.
